@@ -681,6 +681,27 @@ pub fn body(case: &Case, out: &Shared) {
         }
     }
 
+    // final LSM shape (files per level), for the coverage signature
+    if healthy && !rt::is_poisoned() {
+        if let Called::Ok(shape) = call("shape", || db.verif_shape()) {
+            let mut per_level = vec![0usize; 7];
+            for f in &shape.files {
+                per_level[f.level] += 1;
+            }
+            with_out(out, |o| {
+                for (l, n) in per_level.iter().enumerate() {
+                    if *n > 0 && l > o.stats.max_level {
+                        o.stats.max_level = l;
+                    }
+                }
+                if per_level[0] >= 4 && per_level[1] >= 2 {
+                    o.stats.probe("l0_ge4_over_l1_ge2");
+                }
+                o.stats.shapes.push(per_level);
+            });
+        }
+    }
+
     // close: whichever task holds the last Arc drops the DB; here it is the main task, possibly
     // while background work is still in flight (no quiesce in some runs)
     let completed = healthy && !rt::is_poisoned();
